@@ -1279,6 +1279,18 @@ impl<const N: usize> World<N> {
             cnt += 1;
             i = s.desc_shadow[i].3 as usize;
         }
+        // With event-idx: while used-buffer notifications are wanted (never switched off, or
+        // switched on again), used_event names the next completion, so that a device following
+        // the specification interrupts for it. (What it holds while they are switched off is the
+        // driver's business.)
+        if self.cfg.event_idx && self.last_switch == 0 {
+            let want = self.cfg.start_off.wrapping_add(self.pops);
+            match self.refq.used_event() {
+                Ok(ue) if ue == want => {}
+                Ok(ue) => viol("C05", "used-event-not-rearmed", format!("used-buffer notifications are switched on and {} completions have been consumed, but used_event is {} (must be {} for the device to interrupt for the next completion)", self.pops, ue, want)),
+                Err(e) => viol("C06", "avail-unreadable", e),
+            }
+        }
         // Interrupt suppression without event-idx: the device reads exactly the last setting.
         if !self.cfg.event_idx {
             match self.refq.avail_flags() {
